@@ -140,7 +140,7 @@ def circuit_spec(
             nf = 1
         else:
             nf = draw(st.sampled_from(FANIN_WEIGHTS))
-            nf = max(min_fanin_nary, min(nf, max_fanin, len(cands)))
+            nf = min(max(min_fanin_nary, min(nf, max_fanin)), len(cands))
         if cyclic and draw(st.integers(0, 3)) == 0:
             src = cands
         else:
